@@ -331,6 +331,9 @@ func (in *Interp) equalValues(xv, yv Value, t types.Type, pos token.Pos) *Term {
 		return in.equalValues(x.V, y.V, x.T, pos)
 	case SliceV:
 		// only comparison with nil is legal
+		if y, ok := yv.(BytesV); ok && x.arr == nil {
+			return b.Bool(y.Nil)
+		}
 		if y, ok := yv.(SliceV); ok {
 			if y.arr == nil && x.arr == nil {
 				return b.True
@@ -363,11 +366,8 @@ func (in *Interp) equalValues(xv, yv Value, t types.Type, pos token.Pos) *Term {
 		in.unsupported("func comparison")
 	case TimeV:
 		y := yv.(TimeV)
-		// struct equality of time.Time: same kind and value (loc pointers equal in this model)
-		if x.Kind != y.Kind {
-			return b.False
-		}
-		return b.Eq(x.V, y.V)
+		// struct equality of time.Time (loc pointers equal in this model)
+		return in.timeEqual(x, y)
 	case ChanV:
 		y := yv.(ChanV)
 		return b.Bool(x.c == y.c)
